@@ -100,9 +100,15 @@ func init() {
 		ch := newChan(1)
 		s := sched
 		g := &gor{id: len(s.gs), wake: make(chan struct{}, 1), name: "c06timer"}
+		// a timer whose select has been left can only send into a channel nobody reads: only
+		// the most recently created timer is ever enabled
+		c06CurTimer = g
+		g.pend = []interface{}{ch}
 		g.blocked = func() bool {
 			st := (*exiting).(structure)
-			return truthy(st[len(st)-1]) && bch.length() == 0
+			// ... and only once the select is actually waiting on it (a timer that fired before
+			// the select was reached leads to the same continuation)
+			return c06CurTimer == g && truthy(st[len(st)-1]) && bch.length() == 0 && hasLive(ch.recvq)
 		}
 		g.why = "timer (waits for exiting && empty channel)"
 		s.gs = append(s.gs, g)
@@ -111,4 +117,79 @@ func init() {
 		})
 		return ch
 	}
+
+	// verifC06RunOthers(): the calling goroutine waits until every other goroutine is blocked
+	// (used to let the freshly started flusher run its prologue up to its first select before
+	// the first Push: a partial-order reduction applied by the harness in the quick tier only).
+	verifIntrinsics["verifC06RunOthers"] = func(fr *frame, args []value) value {
+		stub("verifC06RunOthers (harness-imposed schedule prefix: other goroutines run until they block)")
+		g := curG(fr)
+		s := sched
+		s.block(g, "verifC06RunOthers", func() bool {
+			for _, o := range s.gs {
+				if o == g || o.done {
+					continue
+				}
+				if o.blocked == nil || o.blocked() {
+					return false
+				}
+			}
+			return true
+		})
+		return nil
+	}
+
+	// verifC06QuietMutex(mu *sync.Mutex): Lock/Unlock of this mutex are not scheduling points.
+	// Sound for a mutex that cannot influence another goroutine: one that is only ever used by
+	// a single goroutine, or one that is only acquired while another, scheduled, mutex is held
+	// (every critical section of the inner mutex is then already atomic). The model aborts the
+	// path as unsupported if such a mutex is ever found locked by another goroutine.
+	verifIntrinsics["verifC06QuietMutex"] = func(fr *frame, args []value) value {
+		stub("verifC06QuietMutex (goroutine-local / nested mutex: Lock and Unlock are not scheduling points)")
+		if c06QuietOwner != sched {
+			c06QuietOwner = sched
+			c06Quiet = map[*value]bool{}
+		}
+		c06Quiet[args[0].(*value)] = true
+		if !c06QuietInstalled {
+			c06QuietInstalled = true
+			origLock, origUnlock := externals["(*sync.Mutex).Lock"], externals["(*sync.Mutex).Unlock"]
+			externals["(*sync.Mutex).Lock"] = func(fr *frame, args []value) value {
+				p := args[0].(*value)
+				if c06QuietOwner == sched && c06Quiet[p] {
+					m := syncSt.mutex(p)
+					if m.locked {
+						panic(pathAbort{"unsupported", "verifC06QuietMutex: a mutex declared goroutine-local/nested is contended"})
+					}
+					g := curG(fr)
+					m.locked = true
+					m.owner = g.id
+					race.acquire(g, m)
+					return nil
+				}
+				return origLock(fr, args)
+			}
+			externals["(*sync.Mutex).Unlock"] = func(fr *frame, args []value) value {
+				p := args[0].(*value)
+				if c06QuietOwner == sched && c06Quiet[p] {
+					m := syncSt.mutex(p)
+					if !m.locked {
+						panic(targetPanicMsg("fatal error: sync: unlock of unlocked mutex"))
+					}
+					race.release(curG(fr), m)
+					m.locked = false
+					return nil
+				}
+				return origUnlock(fr, args)
+			}
+		}
+		return nil
+	}
 }
+
+var (
+	c06CurTimer       *gor
+	c06Quiet          map[*value]bool
+	c06QuietOwner     *scheduler
+	c06QuietInstalled bool
+)
